@@ -215,6 +215,20 @@ def run(ctx):
             else:
                 argv = pre + ['--file', '@' + bname] + shape
             raw_cases.append((bname, bdata, argv, 'odd-argument', bname[bname.index('.'):]))
+    # wildcards made of regular-expression metacharacters that *do* select a file (a match makes the regex library report sub-matches:
+    # whatever holds them must be large enough for however many '(' the wildcard contains), by info and by name lookup
+    metas = b'()[]{}+|^$\\?-'
+    mfiles = [discs.AbsFile(ch, bytes([ch]) * 7, False, 0, 0, 2 + j, b'META%d\r' % j) for j, ch in enumerate(metas)]
+    mfiles.reverse()
+    md = discs.AbsDisc('dfs', 40, 10)
+    md.cats = [discs.AbsCat(b'METAS', 0, 0, 400, mfiles)]
+    mimg = md.encode(lambda n: bytes(n))
+    for ch in metas:
+        c1 = bytes([ch])
+        for w in (c1 + b'.' + c1 * 7, b':0.' + c1 + b'.' + c1 * 7, b'#.' + c1 * 3 + b'*', c1 + b'.' + c1 * 3 + b'####', b'*.' + c1 * 7):
+            raw_cases.append(('meta.ssd', mimg, ['--file', '@meta.ssd', 'info', w], 'metacharacter-wildcard', '.ssd'))
+        raw_cases.append(('meta.ssd', mimg, ['--file', '@meta.ssd', 'type', c1 + b'.' + c1 * 7], 'metacharacter-wildcard', '.ssd'))
+        raw_cases.append(('meta.ssd.gz', gzip.compress(mimg), ['--file', '@meta.ssd.gz', '--dir', c1, 'info', c1 * 7], 'metacharacter-wildcard', '.ssd'))
     # command lines without any image, odd option usage
     for _ in range(20 if ctx.tier == 'quick' else 300):
         argv = [r.choice(['cat', 'info', 'free', 'space', 'show-titles', 'dump-sector', 'sector-map', 'type', 'extract-files', 'bogus', 'help', '--help', '--file', '--drive', '-', '--'])] + \
